@@ -150,7 +150,10 @@ class RunTaskExecutable(Operation):
                 ctx.tee_processor.shutdown()
             raise
 
-        except OSError as ex:
+        except (OSError, ValueError) as ex:
+            # N.B. `subprocess` raises a `ValueError` when the operating system
+            # cannot be handed the command at all (e.g., it contains a NUL byte
+            # or a character that cannot be encoded).
             raise TaskFailed(task_identifier=self._identifier).add_extra_context(
                 str(ex)
             )
